@@ -1,5 +1,9 @@
-"""C19 finding: a completed custom output whose message differs from its
-name is not restored on restart.
+"""C19 finding (REPAIRED in /repo by commit b62f691 - this script now exits 0;
+kept as a regression reproduction, mutant `revert-custom-outputs-fix` in
+tools/mutants_C19.json): a completed custom output whose message differs
+from its name was not restored on restart.
+
+Before the repair:
 
 WorkflowDatabaseManager.put_update_task_outputs() stores
 `json.dumps(itask.state.outputs.get_completed_outputs())`, a
